@@ -1,5 +1,6 @@
 import SaphyrModel.Proofs.InputAgree
 import SaphyrModel.Sc.Scan3
+import SaphyrModel.Proofs.Rel.Final
 /-! # C10 — All input back-ends behave identically
 
 `StrInput` (`kind = .str`) reads straight from the remaining string, overriding some twenty trait
@@ -16,9 +17,17 @@ different algorithm — byte tests for document indicators and `next_can_be_plai
 scans for `skip_while_*` / `fetch_while_is_alpha`, and `skip_ws_to_eol` — are proved equal to the
 trait defaults (loops over `look_ch`/`skip`) by induction over the text. A panic of the buffered side
 (look-ahead beyond the ring, `peek` beyond what was requested, exhausted fuel) claims nothing: the
-look-ahead discipline is C01's subject. **Not proved**: the lifting through the scanner's own code
-(130 functions, three of which branch on `buf_is_empty`/`bufmaxlen`); there the check compares the
-implementation with itself on six back-ends and the scanner model on three. -/
+look-ahead discipline is C01's subject.
+
+**Lifted through the scanner** (`Proofs/Rel/`): a relational Hoare logic over pairs of scanner states that
+differ only in their input, one lemma per model function (generated), gives `scan_backends_agree`: the
+two back-ends deliver the same tokens and the same outcome for every text, every pair of capacities and
+every fuel, unless a run stops at a panic site. Three functions of the scanner branch on the state of
+the look-ahead buffer and take different paths on the two back-ends: the chunked word loop of
+`scan_plain_scalar` (`plain_chunks_agree`) and `scan_block_scalar_content_line` (`content_line_agrees`)
+are **proved** to agree; `skip_block_scalar_indent` is **not** — it is the single hypothesis (`Bespoke`) of
+`C10_partial_modulo_block_scalar_indent`, and for it the check relies on the boundary family (block scalars
+indented around every `bufmaxlen − 2`, six back-ends) and the scanner-model correspondence. -/
 namespace SaphyrModel.C10
 open SaphyrModel SaphyrModel.Sc
 
@@ -30,6 +39,29 @@ def C10_full : Prop :=
     let a := scanAll fuel (mkSc .str 128 text) []
     let b := scanAll fuel (mkSc .buf cap text) []
     (∀ p, a.2.1 ≠ .panic p) → (∀ p, b.2.1 ≠ .panic p) → a.1 = b.1 ∧ a.2.1 = b.2.1
+
+/-- the chunked word loop of `scan_plain_scalar` agrees across back-ends whatever their `bufmaxlen`s
+    (the chunk boundaries fall at different places; lock-step with stuttering at the boundaries) -/
+theorem plain_chunks_agree (f1 f2 : Nat) (str : Str) : RelS (plainChunks f1 str) (plainChunks f2 str) :=
+  plainChunks_rel f1 f2 str
+
+/-- `scan_block_scalar_content_line` agrees across back-ends: buffer first and then raw reads behind it on
+    the buffered input, one of the two paths on the string input — the same characters up to the next break -/
+theorem content_line_agrees (str : Str) : RelS (scanBlockScalarContentLine str) (scanBlockScalarContentLine str) :=
+  line_rel str
+
+/-- **C10 for the scanner, all texts, all capacities — under one hypothesis**: that `skip_block_scalar_indent`
+    (whose fast path depends on `bufmaxlen`) agrees across back-ends. Every other function of the scanner
+    is covered by a proved lemma. -/
+theorem C10_partial_modulo_block_scalar_indent (h : Bespoke) : C10_full :=
+  fun text cap fuel _ => @scan_backends_agree h text 128 cap fuel fuel
+
+/-- … and the same for arbitrary capacities and fuels on both sides -/
+theorem scan_backends_agree_modulo_indent (h : Bespoke) (text : Str) (cap cap' fuel fuel' : Nat) :
+    let a := scanAll fuel (mkSc .str cap text) []
+    let b := scanAll fuel' (mkSc .buf cap' text) []
+    (∀ p, a.2.1 ≠ .panic p) → (∀ p, b.2.1 ≠ .panic p) → a.1 = b.1 ∧ a.2.1 = b.2.1 :=
+  @scan_backends_agree h text cap cap' fuel fuel'
 
 /-- **The whole `Input` interface agrees between the string back-end and any buffered back-end.** -/
 theorem input_interface_agrees :
